@@ -57,6 +57,7 @@ class Oracle:
             self.cfg = dict(kv.split("=") for kv in a if "=" in kv)
             self.alive = set(range(int(self.cfg["n"])))
             self.exp, self.route, self.lost, self.after = {}, {}, 0, False
+            self.destroyed = False
             return None
         if name == "c.own":
             p, b = reply.split("pick=")[1].split()[0].split("/")
@@ -104,6 +105,26 @@ class Oracle:
                     self.set(key, None)
                 else:
                     self.exp.setdefault(key, {None}).add(None)
+            return None
+        if name == "c.destroy":
+            if reply != "ok":
+                return "Destroy after the failover: %s" % reply[:80]
+            self.destroyed = True
+            for k in list(self.exp):
+                self.exp[k] = {None}
+            return None
+        if name == "wb.keys":
+            if not getattr(self, "destroyed", False):
+                return None
+            self.hit("destroy_after_member_left")
+            for part in reply.split():
+                mi, rest = part.split(":", 1)
+                if int(mi[1:]) not in self.alive:
+                    continue
+                p, b = rest.split(";")
+                for kind, lst in (("primary", p[2:]), ("backup", b[2:])):
+                    if lst != "-":
+                        return "after Destroy %s still holds %s entries of the DMap: %s" % (mi, kind, lst[:80])
             return None
         if name == "c.get":
             key = a[3]
@@ -210,3 +231,10 @@ class Gen:
                 yield op
             for key in keys:
                 yield "c.get %s %d dm %s" % (r.choice(["emb", "raw"]), r.choice(alive), key)
+        if r.random() < 0.85:
+            # Destroy after members were lost: a survivor that was promoted to primary owner may still hold the backup
+            # fragment of the same partition - both go; every key reads not-found from every survivor, nothing is left
+            yield "c.destroy %s %d dm" % (r.choice(["emb", "cli"]), r.choice(alive))
+            yield "wb.keys dm"
+            for key in keys:
+                yield "c.get emb %d dm %s" % (r.choice(alive), key)
